@@ -1,14 +1,15 @@
 (* C10 - vacuity audit of the theorems of Properties.v: for every theorem the premises are instantiated with a
    concrete, non-degenerate instance (several parameters, several items in a Param dict, several files / modules) and
    the theorem is applied to it.  C10 has no oracle / environment hypotheses: the model is closed, every premise is an
-   equation on the executable model.  The one place where premises are jointly unsatisfiable is the instance
-   k = `constant` of the "value / default / constant" statements: see constant_* at the end. *)
+   equation on the executable model.  The instance k = `constant` of the "value / default / constant" statements was
+   vacuous while the model gave up on every entry with a `constant`; the property is modelled now (Parameter.setProperty,
+   Parameter.finish): see the last section for both sides of every statement about it. *)
 From Coq Require Import String.
 From Coq Require Import ZArith NArith Bool List Permutation Lia.
 Import ListNotations.
 Local Open Scope list_scope.
 Require Import FV.Base.Util FV.Base.F64 FV.Base.PyVal FV.C01.Model FV.C01.Lemmas FV.Gen.C10 FV.C10.Model FV.C10.Lemmas
-  FV.C10.Refuted FV.C10.Properties.
+  FV.C10.LemmasConst FV.C10.Refuted FV.C10.Properties.
 
 Ltac nodup := repeat (apply NoDup_cons; [vm_compute; intuition discriminate|]); apply NoDup_nil.
 (* mod_init C c is Created: decided by vm_compute on a boolean, the instance itself is never printed *)
@@ -88,18 +89,37 @@ Proof.
   exists i, x. split; [exact E|]. split; [exact O|]. split; [reflexivity|]. exact P.
 Qed.
 
-(* C10_later_range_checks_use_instance_limits: the instance datatype of p1, probe 5 *)
+(* C10_later_range_checks_use_instance_limits: the class-level datatype fl010 is well formed, the entry of p1 overrides
+   min and unit of a float (nothing scaled): the theorem DERIVES wf of the instance datatype dcfg1 (min = 1) and gives the
+   soundness of its validate; probe 5 *)
+Lemma fl010_wf : wf fl010.
+Proof. vm_compute. reflexivity. Qed.
+Lemma en1_scaled_kept : scaled_limits_kept fl010 en1.
+Proof. intros S. vm_compute in S. discriminate S. Qed.
 Example C10_later_range_checks_applies :
   exists i p y, mod_init C1 demo_cfg = Created i /\ In p (i_params i) /\ p_dt p = Some dcfg1 /\ wf dcfg1 /\
     valid dcfg1 (PInt 5) = Ok y /\ in_setb dcfg1 y = true.
 Proof.
   destruct C10_nonvacuous_applied_premises as [i [E [A [B [D [F [G [H [I [J K]]]]]]]]]].
-  destruct (C10_value_applied C1 demo_cfg i p1 fl010 en1 (PInt 5) E A B D F G H I) as [p' [d' [c1 [L [M [N [O _]]]]]]].
+  destruct (C10_later_range_checks_use_instance_limits C1 demo_cfg i p1 fl010 en1 E A B D F G fl010_wf en1_scaled_kept)
+    as [p' [d' [L [M [N [O [W V]]]]]]].
   rewrite dcfg1_eq in N. inversion N; subst d'.
-  assert (V : match valid dcfg1 (PInt 5) with Ok _ => true | Err _ => false end = true) by (vm_compute; reflexivity).
-  destruct (valid dcfg1 (PInt 5)) as [y|] eqn:EV; [|discriminate V].
-  exists i, p', y. split; [exact E|]. split; [exact L|]. split; [exact O|]. split; [exact dcfg1_wf|].
-  split; [reflexivity|]. exact (C10_later_range_checks_use_instance_limits C1 demo_cfg i p' dcfg1 (PInt 5) y E L O dcfg1_wf EV).
+  assert (X : match valid dcfg1 (PInt 5) with Ok _ => true | Err _ => false end = true) by (vm_compute; reflexivity).
+  destruct (valid dcfg1 (PInt 5)) as [y|] eqn:EV; [|discriminate X].
+  exists i, p', y. split; [exact E|]. split; [exact L|]. split; [exact O|]. split; [exact W|].
+  split; [reflexivity|]. exact (V (PInt 5) y EV).
+Qed.
+(* the start-up write of p1 (the validated 5) lies in the value set of the configured datatype *)
+Example C10_start_up_write_within_configured_limits_applies :
+  exists i x, mod_init C1 demo_cfg = Created i /\ writes_for (s_ "p1") (startup i) = [x] /\ in_setb dcfg1 x = true.
+Proof.
+  destruct C10_nonvacuous_applied_premises as [i [E [A [B [D [F [G [H [I [J K]]]]]]]]]].
+  destruct (C10_configured_value_written_exactly_once_applies) as [i' [x [E' [_ [_ W]]]]].
+  rewrite E in E'. inversion E'; subst i'.
+  destruct (C10_start_up_write_within_configured_limits C1 demo_cfg i p1 fl010 en1 (PInt 5) E A B D F G H I J K fl010_wf
+              en1_scaled_kept) as [d' [N V]].
+  rewrite dcfg1_eq in N. inversion N; subst d'.
+  exists i, x. split; [exact E|]. split; [exact W|]. apply V. change (p_name p1) with (s_ "p1"). rewrite W. left. reflexivity.
 Qed.
 (* ... and a probe outside the configured limits (0.5 < min = 1 is not available as an integer: 0) is refused by the
    instance datatype although the class-level datatype fl010 accepts it: the premise `valid d x = Ok y` is a real
@@ -419,38 +439,109 @@ Proof.
   rewrite He, app_length, X2 in X1. lia.
 Qed.
 
-(* ================================================================== the instance k = `constant`
-   checked_value_props = [value; default; constant], but the model gives up on every Param entry that carries the key
-   `constant` (param_setprop: "not modelled" -> PCrash, outcome Crashed).  Consequences, proved here:
-   - the premise `apply_entry_keep p en = (p1, PGo p1)` of the third clause of
-     C10_error_list_names_every_collected_item (and of the last two clauses of
-     C10_value_checked_against_configured_datatype) contradicts `assoc_str k_constant en = Some v`: for k = constant
-     that clause says nothing, and in the hypothesis on [default; constant] of the last clause of
-     C10_value_checked_against_configured_datatype the member `constant` never occurs;
-   - C10_wrong_type_value_rejected holds for k = constant whatever the value is (also for one that IS a value of the
-     configured datatype): the statement "a constant that is no value of d' is rejected" is not what the model shows. *)
-Lemma constant_setprop_crashes p v : p_iscmd p = false -> prop_step (PGo p) (k_constant, v) = PCrash.
+(* ================================================================== the `constant` of a Param entry
+   checked_value_props = [value; default; constant].  Modelled since the audit: Parameter.setProperty stores the constant
+   as given, the second loop of _add_accessible checks it with the configured datatype, Parameter.finish converts and
+   exports it and makes the parameter readonly - unguarded. *)
+Definition enc : entry := [(k_constant, PInt 3); (k_min, PInt 1)].
+Definition cfgc : cfg := [descr; (s_ "p1", CDict enc)].
+Definition dcfgc : dtype := match configured_dt fl010 [] enc with Some d => d | None => TBool end.
+Lemma dcfgc_eq : configured_dt fl010 (p_unit p1) enc = Some dcfgc.
 Proof.
-  intros Hc. unfold prop_step. rewrite Hc. unfold param_setprop.
-  assert (T : pprop_type param_props k_constant = Some MUnmodelled) by (vm_compute; reflexivity).
-  rewrite T.
-  assert (V : str_eqb k_constant k_value = false) by (vm_compute; reflexivity).
-  assert (D : str_eqb k_constant k_default = false) by (vm_compute; reflexivity).
-  rewrite V, D. reflexivity.
+  unfold dcfgc. change (p_unit p1) with (@nil N).
+  assert (H : match configured_dt fl010 [] enc with Some _ => true | None => false end = true) by (vm_compute; reflexivity).
+  destruct (configured_dt fl010 [] enc); [reflexivity|discriminate H].
 Qed.
 
-Lemma constant_entry_never_applies : forall en p v p1,
-  p_iscmd p = false -> assoc_str k_constant en = Some v -> apply_entry_keep p en <> (p1, PGo p1).
+(* the applying side: Param(constant=3, min=1) on FloatRange(0, 10): created, the instance carries the exported 3.0 and
+   is readonly although the class says readonly = False *)
+Example C10_constant_applied_applies :
+  p_readonly p1 = false /\
+  exists i p' c1 j, mod_init C1 cfgc = Created i /\ In p' (i_params i) /\ p_name p' = s_ "p1" /\ p_dt p' = Some dcfgc /\
+    conv dcfgc (PInt 3) = Ok c1 /\ dt_exp dcfgc c1 = Some j /\ pv_same j (PFloat (of_Z 3)) = true /\
+    p_constant p' = Some j /\ p_readonly p' = true.
 Proof.
-  induction en as [|[k x] en IH]; intros p v p1 Hc Ha H; [discriminate Ha|].
-  rewrite apply_entry_keep_cons in H. simpl in Ha.
-  destruct (str_eqb k_constant k) eqn:Ek.
-  - apply str_eqb_true in Ek. subst k. rewrite (constant_setprop_crashes p x Hc) in H. inversion H.
-  - destruct (prop_step (PGo p) (k, x)) as [| |p'] eqn:Es; [inversion H|inversion H|].
-    apply (IH p' v p1); [rewrite (prop_step_cmd _ _ _ Es); exact Hc|exact Ha|exact H].
+  split; [reflexivity|]. created C1 cfgc i E.
+  assert (A : In p1 (c_params C1)) by (left; reflexivity).
+  assert (ND : NoDup (map fst enc)) by nodup.
+  destruct (C10_constant_applied C1 cfgc i p1 fl010 enc (PInt 3) E A eq_refl eq_refl eq_refl) as
+    [p' [d' [c1 [j [L [M [N [O [P [Q [R S]]]]]]]]]]]; [vm_compute; reflexivity|exact ND|left; reflexivity|].
+  rewrite dcfgc_eq in N. inversion N; subst d'.
+  assert (X : match conv dcfgc (PInt 3) with
+              | Ok c => match dt_exp dcfgc c with Some j0 => pv_same j0 (PFloat (of_Z 3)) | None => false end
+              | Err _ => false end = true) by (vm_compute; reflexivity).
+  rewrite P, Q in X.
+  exists i, p', c1, j. split; [reflexivity|]. split; [exact L|]. split; [exact M|]. split; [exact O|]. split; [exact P|].
+  split; [exact Q|]. split; [exact X|]. split; [exact R|exact S].
 Qed.
 
-(* a constant that IS a value of the (configured) datatype: not created either - the model does not distinguish *)
-Example constant_of_right_type_not_created :
-  match mod_init C1 [descr; (s_ "p1", CDict [(k_constant, PInt 5)])] with Crashed => true | _ => false end = true.
-Proof. vm_compute. reflexivity. Qed.
+(* the rejecting side: C10_wrong_type_value_rejected with k = constant and C10_wrong_type_constant_leaves_init on
+   Param(constant='abcdef', maxchars=3): no instance and no ConfigError either - the outcome is Crashed *)
+Definition enw : entry := [(k_constant, abcdef); (k_maxchars, PInt 3)].
+Definition cfgw : cfg := [descr; (s_ "label", CDict enw)].
+Example C10_wrong_type_constant_applies :
+  (forall i, mod_init C3 cfgw <> Created i) /\ (forall es, mod_init C3 cfgw <> Rejected es) /\
+  match mod_init C3 cfgw with Crashed => true | _ => false end = true /\
+  (* the same constant IS accepted without the override that refuses it *)
+  match mod_init C3 [descr; (s_ "label", CDict [(k_constant, abcdef)])] with Created _ => true | _ => false end = true.
+Proof.
+  assert (A : In plabel (c_params C3)) by (left; reflexivity).
+  assert (ND : NoDup (map fst enw)) by nodup.
+  destruct (C10_wrong_type_constant_leaves_init C3 cfgw plabel str0 enw abcdef (TString 0 3 false) ERange A eq_refl eq_refl
+              eq_refl) as [N1 N2]; [vm_compute; reflexivity|exact ND|left; reflexivity|discriminate|vm_compute; reflexivity
+              |vm_compute; reflexivity|].
+  split; [|split; [exact N2|split; vm_compute; reflexivity]].
+  intros i. apply (C10_wrong_type_value_rejected C3 cfgw i plabel str0 enw k_constant abcdef (TString 0 3 false) ERange A
+                     eq_refl eq_refl eq_refl); vm_compute; reflexivity.
+Qed.
+
+(* third clause of C10_error_list_names_every_collected_item with k = constant: the premises (Rejected, the entry applies,
+   the constant is no value of the final datatype) are satisfiable exactly for Param(constant=None) - datatype(None) is
+   collected by the second loop, Parameter.finish skips a None constant - and the clause names `p1.constant` *)
+Definition enn : entry := [(k_constant, PNone)].
+Definition cfgn : cfg := [descr; (s_ "p1", CDict enn)].
+Example C10_error_list_constant_applies :
+  exists es, mod_init C1 cfgn = Rejected es /\ In (ErrBadValue (s_ "p1") k_constant) es.
+Proof.
+  rejected C1 cfgn es E. exists es. split; [reflexivity|].
+  destruct (C10_error_list_names_every_collected_item C1 cfgn es E) as [_ [_ [B _]]].
+  destruct (B p1 enn k_constant PNone (set_constant p1 None) fl010 EWrongType) as [k' [Hk' Hin]];
+    [left; reflexivity|reflexivity|reflexivity|vm_compute; reflexivity|reflexivity|vm_compute; reflexivity
+    |vm_compute; reflexivity|reflexivity|reflexivity|].
+  assert (X : match mod_init C1 cfgn with
+              | Rejected l => forallb (fun e0 => match e0 with ErrBadValue _ k0 => str_eqb k0 k_constant | _ => true end) l
+              | _ => false end = true) by (vm_compute; reflexivity).
+  rewrite E in X. rewrite forallb_forall in X. specialize (X _ Hin). simpl in X. apply str_eqb_true in X. subst k'. exact Hin.
+Qed.
+
+(* last clause of C10_value_checked_against_configured_datatype with a configured constant among the keywords (the member
+   `constant` of its hypothesis on [default; constant] now occurs): Param(5, constant=7) on FloatRange(0, 10) *)
+Definition kwk : entry := [(k_constant, PInt 7)].
+Example C10_value_checked_with_constant_applies :
+  exists a, acc_step true p1 (Some (CDict (param_dict (Some (PInt 5)) kwk))) = Some a /\ a_errs a = [] /\
+    p_constant (a_param a) = Some (PInt 7).
+Proof.
+  assert (A : In p1 (c_params C1)) by (left; reflexivity).
+  assert (ND : NoDup (map fst kwk)) by nodup.
+  set (cc := [descr; (s_ "p1", CDict (param_dict (Some (PInt 5)) kwk))] : cfg).
+  destruct (C10_value_checked_against_configured_datatype C1 cc p1 fl010 (PInt 5) kwk A eq_refl eq_refl eq_refl)
+    as [_ [dcfg [HD [_ [_ [_ R3]]]]]]; [vm_compute; reflexivity|exact ND|vm_compute; reflexivity|].
+  assert (HD' : configured_dt fl010 (p_unit p1) kwk = Some fl010) by reflexivity.
+  rewrite HD' in HD. inversion HD; subst dcfg.
+  assert (X : match conv fl010 (PInt 5) with Ok _ => true | Err _ => false end = true) by (vm_compute; reflexivity).
+  destruct (conv fl010 (PInt 5)) as [c1|] eqn:CV; [|discriminate X].
+  destruct (R3 c1 (set_constant p1 (Some (PInt 7))) true eq_refl) as [a [S1 [S2 _]]].
+  - reflexivity.
+  - intros k v' [Hk|[Hk|[]]] Hv; subst k; vm_compute in Hv; [discriminate Hv|].
+    inversion Hv; subst v'.
+    assert (Y : match conv fl010 (PInt 7) with Ok _ => true | Err _ => false end = true) by (vm_compute; reflexivity).
+    destruct (conv fl010 (PInt 7)) as [c'|]; [exists c'; reflexivity|discriminate Y].
+  - exists a. split; [exact S1|]. split; [exact S2|].
+    assert (Z : match acc_step true p1 (Some (CDict (param_dict (Some (PInt 5)) kwk))) with
+                | Some a0 => match p_constant (a_param a0) with Some (PInt 7) => true | _ => false end
+                | None => false end = true) by (vm_compute; reflexivity).
+    rewrite S1 in Z. destruct (p_constant (a_param a)) as [[| |z| | | | | | | |]|]; try discriminate Z.
+    destruct z as [|q|q]; try discriminate Z.
+    destruct q as [q|q|]; try discriminate Z; destruct q as [q|q|]; try discriminate Z;
+      destruct q as [q|q|]; try discriminate Z. reflexivity.
+Qed.
